@@ -30,6 +30,15 @@ def gen_case(rng, k):
     while len(pats) < npat:
         w = word(1, 4)
         if w not in pats and '\n' not in w: pats.append(w)
+    # nested dictionaries: a long pattern that contains separated occurrences of other patterns
+    # (they are reported after the short ones end, so an incremental renderer has already moved on)
+    if rng.random() < 0.35:
+        for _ in range(rng.randint(1, 2)):
+            parts = [word(0, 2)]
+            for _ in range(rng.randint(2, 3)):
+                parts += [rng.choice(pats), word(0, 2)]
+            w = ''.join(parts)
+            if w and w not in pats: pats.append(w)
     ninputs = rng.randint(1, 2)
     inputs = []
     for j in range(ninputs):
